@@ -252,10 +252,14 @@ func main() {
 		// fixed corpus of classic malformed inputs into every primitive type
 		corpus := [][]byte{{}, {0x02}, {0x02, 0x82, 0x01}, {0x01, 0x00}, {0x02, 0x00}, {0x03, 0x00}, {0x03, 0x01, 0x09}, {0x03, 0x02, 0x09, 0xff},
 			{0x1f}, {0x1f, 0x81}, {0x1f, 0x81, 0x82, 0x83, 0x84, 0x85, 0x86, 0x87, 0x88, 0x89, 0x8a, 0x01, 0x00}, {0x02, 0x85, 1, 2, 3, 4, 5}, {0x02, 0x84, 0xff, 0xff, 0xff, 0xff},
-			{0x02, 0x09, 1, 2, 3, 4, 5, 6, 7, 8, 9}, {0x04, 0x01, 0x05}, {0x30, 0x03, 0x80, 0x01}, {0x30, 0x80}, {0xa0, 0x03, 0x02, 0x01, 0x05}, {0x02, 0x81, 0x01, 0x07}}
+			{0x02, 0x09, 1, 2, 3, 4, 5, 6, 7, 8, 9}, {0x30, 0x0a, 0x02, 0x88, 0xff, 0xff, 0xff, 0xff, 0xff, 0xff, 0xff, 0xf6}, {0x04, 0x88, 0xff, 0xff, 0xff, 0xff, 0xff, 0xff, 0xff, 0xf0}, {0x30, 0x0b, 0x80, 0x88, 0x80, 0, 0, 0, 0, 0, 0, 1, 0x05}, {0x02, 0x85, 0, 0, 0, 0, 1, 7}, {0x04, 0x01, 0x05}, {0x30, 0x03, 0x80, 0x01}, {0x30, 0x80}, {0xa0, 0x03, 0x02, 0x01, 0x05}, {0x02, 0x81, 0x01, 0x07}}
 		for _, c := range corpus {
 			for _, pt := range primTypes {
 				emit(i, tcase{pt.t, pt.coq, "", "prim"}, c, "corpus")
+				i++
+			}
+			for _, t := range []reflect.Type{reflect.TypeOf([]int64{}), reflect.TypeOf([]asn.OctetString{})} {
+				emit(i, tcase{t, tyRef(t), "", "slice"}, c, "corpus")
 				i++
 			}
 			for _, t := range []reflect.Type{cdrreg.Types[14], cdrreg.Types[100]} {
@@ -277,7 +281,7 @@ func main() {
 			}
 			m := append([]byte{}, bs...)
 			how := ""
-			switch rng.Intn(5) {
+			switch rng.Intn(7) {
 			case 0:
 				m = m[:rng.Intn(len(m))]
 				how = "truncate"
@@ -295,10 +299,45 @@ func main() {
 			case 3:
 				m = append(m, g.Bytes(1+rng.Intn(3))...)
 				how = "trailing"
-			default:
+			case 4:
 				k := rng.Intn(len(m))
 				m[k] = byte(rng.Intn(256))
 				how = "byte-replace"
+			default:
+				// rewrite the length octets of some (possibly nested) element in long form
+				hs := tlvHeaders(m, 0, 0)
+				if len(hs) > 0 {
+					h := hs[rng.Intn(len(hs))]
+					n := 1 + rng.Intn(9)
+					var v uint64
+					switch rng.Intn(6) {
+					case 0:
+						v = uint64(h.length) // same length, non-minimal form
+					case 1:
+						v = ^uint64(0) - uint64(rng.Intn(32)) // top bits set: negative as int64
+					case 2:
+						v = uint64(1)<<63 + uint64(rng.Intn(16))
+					case 3:
+						v = uint64(h.length) + uint64(1+rng.Intn(3))
+					case 4:
+						v = uint64(int64(-(h.contentStart - h.start))) // minus the header size
+					default:
+						v = rng.Uint64()
+					}
+					lo := []byte{0x80 | byte(n)}
+					for i := n - 1; i >= 0; i-- {
+						if i >= 8 {
+							lo = append(lo, 0)
+						} else {
+							lo = append(lo, byte(v>>(8*uint(i))))
+						}
+					}
+					nm := append([]byte{}, m[:h.lenStart]...)
+					nm = append(nm, lo...)
+					nm = append(nm, m[h.contentStart:]...)
+					m = nm
+				}
+				how = "length-form"
 			}
 			if len(m) > 3000 {
 				m = m[:3000]
@@ -353,6 +392,52 @@ func main() {
 	for _, k := range keys {
 		fmt.Printf("class %s %d\n", k, g.Stats[k])
 	}
+}
+
+type hdrPos struct{ start, lenStart, contentStart, length int }
+
+// tlvHeaders walks a (valid) BER encoding and returns the position of every header, nested ones included.
+func tlvHeaders(bs []byte, off int, depth int) []hdrPos {
+	var out []hdrPos
+	for off < len(bs) && depth < 12 {
+		start := off
+		b0 := bs[off]
+		off++
+		if b0&0x1f == 0x1f {
+			for off < len(bs) && bs[off]&0x80 != 0 {
+				off++
+			}
+			off++
+		}
+		if off >= len(bs) {
+			break
+		}
+		lenStart := off
+		l := int(bs[off])
+		off++
+		if l > 127 {
+			n := l & 0x7f
+			if n > 4 || off+n > len(bs) {
+				break
+			}
+			l = 0
+			for i := 0; i < n; i++ {
+				l = l<<8 | int(bs[off+i])
+			}
+			off += n
+		}
+		if off+l > len(bs) {
+			break
+		}
+		out = append(out, hdrPos{start, lenStart, off, l})
+		if b0&0x20 != 0 {
+			for _, h := range tlvHeaders(bs[off:off+l], 0, depth+1) {
+				out = append(out, hdrPos{h.start + off, h.lenStart + off, h.contentStart + off, h.length})
+			}
+		}
+		off += l
+	}
+	return out
 }
 
 func unmarshalFast(bs []byte, t reflect.Type, p string) (val reflect.Value, res string) {
